@@ -228,8 +228,11 @@ def d_fission(old_ir, new_ir, call):
     gap = call.kwargs.get("gap_cursor")
     n_lifts = call.kwargs.get("n_lifts", 1)
     pre, post, loops = _block_of_gap(gap)
-    a1 = _assign_targets(pre, LoopIR.Assign)
-    red2 = _assign_targets(post, LoopIR.Reduce)
+    # names are resolved to the buffer they are windows of: the relaxation "a half that assigns
+    # may be split from a half that reduces" is about locations, whatever they are called
+    al = window_aliases(old_ir)
+    a1 = {al.get(n, n) for n in _assign_targets(pre, LoopIR.Assign)}
+    red2 = {al.get(n, n) for n in _assign_targets(post, LoopIR.Reduce)}
     iters = {l.iter for l in loops[:n_lifts]}
     # an if that is split: does the first half write what its condition reads?
     cond_written = False
